@@ -130,6 +130,7 @@ double valueOf(const Tree& t, int c, const std::string& e) {
     if (e == "count(*) + 0.5") return kids + 0.5; if (e == "count(preceding-sibling::*) * 1.5 + 1") return ps * 1.5 + 1;
     if (e == "count(preceding::*) * 97 + 650") return prec * 97.0 + 650; if (e == "(count(preceding::*) + 1) * 676") return (prec + 1) * 676.0; if (e == "count(preceding::*) * 13 + 1900") return prec * 13.0 + 1900;
     if (e.compare(0, 15, "xalan:evaluate(") == 0) return prec + 1; if (e.compare(0, 22, "number(xalan:evaluate(") == 0) return prec + 2 + kids;      // a string made at run time, converted to a number
+    if (e == "count(preceding::*) * 2 + 4503599627370497") return prec * 2.0 + 4503599627370497.0;      // odd integers above 2^52: exact in a double, and round() must leave them alone
     if (e == "(count(preceding::*) + 1) * 98765432101") return (prec + 1) * 98765432101.0; if (e == "count(preceding::*) * 1234567 + 123456789012") return prec * 1234567.0 + 123456789012.0; if (e == "(count(preceding::*) + 1) * 987654321") return (prec + 1) * 987654321.0;
     return prec + 1;
 }
@@ -187,7 +188,7 @@ struct C17 : public Driver {
             // a fifth of the sets number by value expression instead (the rounding of xsl:number value=)
             if (g.chance(1, 5)) { static const std::vector<std::string> vals = { "count(preceding::*) div 2", "(count(preceding::*) + count(ancestor::*)) div 4", "count(*) + 0.5", "count(preceding-sibling::*) * 1.5 + 1", "count(preceding::*) + 1", "count(preceding::*) * 97 + 650", "(count(preceding::*) + 1) * 676", "count(preceding::*) * 13 + 1900", "xalan:evaluate(concat(&quot;'&quot;, count(preceding::*) + 1, &quot;'&quot;))", "number(xalan:evaluate(concat(&quot;'&quot;, count(preceding::*) + 2, &quot;'&quot;))) + count(*)" }; s["value"] = g.pick(vals); s["from"] = ""; s["count"] = ""; }
             else if (g.chance(1, 5)) { s["attr"] = true; if (g.chance(1, 3)) s["count"] = "@k|*"; }       // number the attribute k of every element that has one; a third with a pattern that matches it too
-            else if (g.chance(1, 8)) { static const std::vector<std::string> big = { "(count(preceding::*) + 1) * 98765432101", "count(preceding::*) * 1234567 + 123456789012", "(count(preceding::*) + 1) * 987654321" }; static const std::vector<std::string> seps = { ",", ".", "'", " " };
+            else if (g.chance(1, 8)) { static const std::vector<std::string> big = { "count(preceding::*) * 2 + 4503599627370497", "(count(preceding::*) + 1) * 98765432101", "count(preceding::*) * 1234567 + 123456789012", "(count(preceding::*) + 1) * 987654321" }; static const std::vector<std::string> seps = { ",", ".", "'", " " };
                 s["value"] = g.pick(big); s["from"] = ""; s["count"] = ""; s["token"] = "1"; s["gsep"] = g.pick(seps); s["gsize"] = (long long)g.range(1, 5); }      // nine to fourteen digits, grouped
             sets.push(s);
         }
@@ -264,7 +265,7 @@ struct C17 : public Driver {
                 const std::string& got = it->second;
                 if (S.num("gsize", 0)) {
                     // grouped output of a large value: digits and group structure
-                    const long long v = (long long)std::floor(valueOf(t, (int)c, S.str("value")) + 0.5); const std::string want = grouped(std::to_string(v), S.str("gsep"), (size_t)S.num("gsize"));
+                    const double xv = valueOf(t, (int)c, S.str("value")); const double fl = std::floor(xv); const long long v = (long long)(xv - fl >= 0.5 ? fl + 1 : fl); const std::string want = grouped(std::to_string(v), S.str("gsep"), (size_t)S.num("gsize"));
                     res.count("numbered_nodes"); res.count("oracle_decided"); res.count("grouped_values");
                     if (got != want) res.violate("definition-mismatch", "value|grouping|" + std::string(got.size() < want.size() ? "short" : got.size() > want.size() ? "long" : "differs"), "node " + id + ": xsl:number value=" + std::to_string(v) + " grouping-separator='" + S.str("gsep") + "' grouping-size=" + std::to_string(S.num("gsize")) + " gives [" + got + "], expected [" + want + "]");
                     for (size_t h = 1; h < values.size(); ++h) { auto jt = values[h].find(ks); if (values[h].empty()) continue; if (jt == values[h].end() || jt->second != got) { res.violate("history-dependent", shape + "|" + hist.a[h].str("clock"), "node " + id + ": grouped value [" + got + "] in the reference history, [" + (jt == values[h].end() ? std::string("<missing>") : jt->second) + "] in order '" + hist.a[h].str("order") + "' with clock '" + hist.a[h].str("clock") + "'"); break; } }
